@@ -28,7 +28,9 @@ impl<F: Field> PolynomialCoeffs<F> {
             let rev_q: Self = (&rev_b_inv * &rhs).coeffs[..=a_degree_plug_1 - b_degree_plus_1]
                 .to_vec()
                 .into();
-            let mut q = rev_q.rev();
+            // Reverse all `a_degree - b_degree + 1` coefficients; `rev()` would first trim the
+            // zeros at the top of `rev_q`, i.e. the low-order zero coefficients of the quotient.
+            let mut q: Self = rev_q.coeffs.iter().rev().copied().collect::<Vec<_>>().into();
             let qb = &q * b;
             let mut r = self - &qb;
             q.trim();
